@@ -336,14 +336,16 @@ def prepPartialBodyEchoing (pos : Nat) : Op :=
 
 /-! ### parsing the reply -/
 
+/-- makeAdaptedBodyPipe() for the adapted body, with state.parsing = psBody set just before -/
+def openAdaptedPipe : Op := fun s => { s with outSt := .isOpen, parsing := .body }
+
 /-- ModXact::decideOnParsingBody() -/
 def decideOnParsingBody : Op :=
   cond (fun s => s.gotBody)
-    ((fun s => { s with parsing := .body }) ;;
-     cond (fun s => s.head == .none) (fun s => { s with thrown := true, crashed := true })      -- makeAdaptedBodyPipe() dereferences adapted.header
-       (must (fun s => s.outSt == .noPipe) ;;                                                -- Must(!adapted.body_pipe)
-        (fun s => { s with outSt := .isOpen }) ;;
-        must (fun s => s.sending == .adapted)))
+    -- state.parsing = psBody; makeAdaptedBodyPipe(): Must(!adapted.body_pipe), then adapted.header is dereferenced; Must(sending == adapted)
+    (cond (fun s => s.head == .none) (fun s => { s with parsing := .body, thrown := true, crashed := true })
+       (cond (fun s => s.outSt == .noPipe) (openAdaptedPipe ;; must (fun s => s.sending == .adapted))
+          (fun s => { s with parsing := .body, thrown := true })))
     (cond (fun s => s.trailerExpected) (fun s => { s with parsing := .icapTrailer }) (stopParsing true) ;; stopSending true)
 
 /-- how many pending bytes fit into the adapted pipe now -/
